@@ -477,7 +477,7 @@ def language_xpath_backrefs(ctx):
         counts[res] = counts.get(res, 0) + 1
         if res == 'sat':
             # replace the back-reference letters of the witness by the text of the referenced group
-            subj = re.sub('[' + chr(92) + '](?P<n>[0-9]+)', lambda m: LETTERS[int(m.group('n')) - 1] if int(m.group('n')) <= 12 else '?', wit)
+            subj = re.sub(chr(92) * 2 + '(?P<n>[0-9]+)', lambda m: LETTERS[int(m.group('n')) - 1] if int(m.group('n')) <= 12 else '?', wit)
             cex.append(dict(call='replay_backref(%r, %r)' % (p, subj), message='P=%r: python %r differs from the reference tokenisation, witness %r' % (p, py, wit)))
         elif res != 'unsat':
             q.unknown += 1
